@@ -136,7 +136,11 @@ class Interp:
         if isinstance(v, SPy):
             return lift_bool(self.rt.pytruth(v.e))
         if isinstance(v, SOid):
-            return True
+            # x690's ObjectIdentifier defines __len__ (number of arcs) and no __bool__: the zero-length OID is falsy
+            if self.rt.oid is None:
+                raise Undecided("truth value of an OID without an OID theory")
+            n = self.rt.oid.olen_sym(self, v)
+            return (n != 0) if isinstance(n, int) else Not(n.eq(0))
         if isinstance(v, Obj):
             m = self.rt.lookup_method(v.cls, "__bool__")
             if m is not None:
